@@ -333,89 +333,93 @@ theorem lin_telescope : ∀ n ≤ N,
       simp only [add_dotProduct, dotProduct_add, transpose_mulVec_dot]
       ring
 
-include hpart hQ hQN hR hsolve hf hPSD in
-/-- the quadratic part is bounded below by the cost-to-go, which vanishes at `δx₀ = 0` -/
-theorem quad_lower : ∀ n, n < N →
-    0 ≤ ∑ t ∈ Finset.range (n + 1),
+/-- deviation of a feasible direction from the Riccati feedback at stage `t`:
+    `w_t = δu_t[J] − K_t δx_t` -/
+def ricW (t : Nat) : Fin (data t).J.length → α :=
+  (fun b : Fin (data t).J.length =>
+      (fun k => if h : k < nu then (DU) t ⟨k, h⟩ else 0) (iget (data t).J b))
+    - toM (data t).J.length nx (ricStg N nx nu solveM solveV data QN qN t).gain *ᵥ (DX) t
+
+include hpart hQ hQN hR hsolve hf in
+/-- completion of squares along the horizon:
+    `Σ_{t≤n} ℓ⁰_t(δx_t, δu_t) + ½‖δx_{n+1}‖²_{P_{n+1}} = Σ_{t≤n} ½ w_tᵀ R̄_t w_t` -/
+theorem quad_exact : ∀ n, n < N →
+    ∑ t ∈ Finset.range (n + 1),
           qpStage (toM nx nx (data t).Q) (toM nu nu (data t).R) (toM nu nx (data t).S) 0 0
             ((DX) t) ((DU) t)
         + 1 / 2 * bil (toM nx nx (ricStg N nx nu solveM solveV data QN qN n).Pn)
-            ((DX) (n + 1)) ((DX) (n + 1)) := by
+            ((DX) (n + 1)) ((DX) (n + 1))
+      = ∑ t ∈ Finset.range (n + 1),
+          1 / 2 * bil (toM (data t).J.length (data t).J.length
+              (ricStg N nx nu solveM solveV data QN qN t).Rbar)
+            (ricW N nx nu solveM solveV data QN qN X' U' t)
+            (ricW N nx nu solveM solveV data QN qN X' U' t) := by
   obtain ⟨d0, d1, d2⟩ := dir_props N nx nu solveM solveV data QN qN hpart X' U' hf
+  -- the stage identity, stated with the records `ricStg t`
+  have stage : ∀ t, t < N →
+      qpStage (toM nx nx (data t).Q) (toM nu nu (data t).R) (toM nu nx (data t).S) 0 0
+          ((DX) t) ((DU) t)
+        + 1 / 2 * bil (toM nx nx (ricStg N nx nu solveM solveV data QN qN t).Pn)
+            ((DX) (t + 1)) ((DX) (t + 1))
+      = 1 / 2 * bil (toM nx nx (ricNextP nx (data t)
+            (ricStg N nx nu solveM solveV data QN qN t).Pn
+            (ricStg N nx nu solveM solveV data QN qN t))) ((DX) t) ((DX) t)
+        + 1 / 2 * bil (toM (data t).J.length (data t).J.length
+              (ricStg N nx nu solveM solveV data QN qN t).Rbar)
+            (ricW N nx nu solveM solveV data QN qN X' U' t)
+            (ricW N nx nu solveM solveV data QN qN X' U' t) := by
+    intro t ht
+    have hs := hsolve t ht
+    have hsym := ric_symm N nx nu solveM solveV data QN qN hpart hQ hQN hR hsolve (N - 1 - t) t
+      (by omega)
+    unfold ricW
+    obtain ⟨Pi, si, hPi, hsi, hrec⟩ : ∃ Pi si,
+        (ricStg N nx nu solveM solveV data QN qN t).Pn = Pi ∧
+        (ricStg N nx nu solveM solveV data QN qN t).sn = si ∧
+        ricStg N nx nu solveM solveV data QN qN t = ricRecord nx nu solveM solveV (data t) Pi si :=
+      ⟨_, _, rfl, rfl, ric_records N nx nu solveM solveV data QN qN t ht⟩
+    rw [hPi] at hs hsym ⊢
+    rw [hsi] at hs
+    rw [hrec]
+    have key := stage_square_model nx nu solveM solveV (data t) Pi si (hpart t ht) hs hsym
+      (hR t ht) ((DX) t) (fun k => if h : k < nu then (DU) t ⟨k, h⟩ else 0)
+      (by
+        intro k hk
+        have hlt := part_lt_K (hpart t ht) k hk
+        simp only [hlt, dif_pos]
+        exact d2 t ht ⟨k, hlt⟩ hk)
+    have hu : (fun k : Fin nu => if h : (k : Nat) < nu then (DU) t ⟨k, h⟩ else 0) = (DU) t := by
+      ext k; simp [k.2]
+    rw [hu] at key
+    rw [d1 t ht]
+    exact key
   intro n
   induction n with
   | zero =>
     intro hN
-    have hs := hsolve 0 hN
-    have hsym := ric_symm N nx nu solveM solveV data QN qN hpart hQ hQN hR hsolve (N - 1) 0
-      (by omega)
-    have hps := hPSD 0 hN
-    obtain ⟨Pi, si, hPi, hsi, hrec⟩ : ∃ Pi si,
-        (ricStg N nx nu solveM solveV data QN qN 0).Pn = Pi ∧
-        (ricStg N nx nu solveM solveV data QN qN 0).sn = si ∧
-        ricStg N nx nu solveM solveV data QN qN 0 = ricRecord nx nu solveM solveV (data 0) Pi si :=
-      ⟨_, _, rfl, rfl, ric_records N nx nu solveM solveV data QN qN 0 hN⟩
-    rw [hPi] at hs hsym ⊢
-    rw [hsi] at hs
-    rw [hrec] at hps
-    have key := stage_square_model nx nu solveM solveV (data 0) Pi si (hpart 0 hN) hs hsym
-      (hR 0 hN) ((DX) 0) (fun k => if h : k < nu then (DU) 0 ⟨k, h⟩ else 0)
-      (by
-        intro k hk
-        have hlt := part_lt_K (hpart 0 hN) k hk
-        simp only [hlt, dif_pos]
-        exact d2 0 hN ⟨k, hlt⟩ hk)
-    have hu : (fun k : Fin nu => if h : (k : Nat) < nu then (DU) 0 ⟨k, h⟩ else 0) = (DU) 0 := by
-      ext k; simp [k.2]
-    rw [hu] at key
-    rw [Finset.sum_range_one, d1 0 hN, key]
-    have hw := hps ((fun b : Fin (data 0).J.length =>
-        (fun k => if h : k < nu then (DU) 0 ⟨k, h⟩ else 0) (iget (data 0).J b))
-      - toM (data 0).J.length nx (ricRecord nx nu solveM solveV (data 0) Pi si).gain *ᵥ (DX) 0)
-    have hz : bil (toM nx nx (ricNextP nx (data 0) Pi (ricRecord nx nu solveM solveV (data 0) Pi si)))
-        ((DX) 0) ((DX) 0) = 0 := by
+    rw [Finset.sum_range_one, Finset.sum_range_one, stage 0 hN]
+    have hz : bil (toM nx nx (ricNextP nx (data 0) (ricStg N nx nu solveM solveV data QN qN 0).Pn
+        (ricStg N nx nu solveM solveV data QN qN 0))) ((DX) 0) ((DX) 0) = 0 := by
       simp only [d0, bil, zero_dotProduct]
-    rw [hz]
-    linarith
+    rw [hz]; ring
   | succ n ih =>
     intro hN
     have hn := ih (by omega)
-    have hs := hsolve (n + 1) hN
-    have hsym := ric_symm N nx nu solveM solveV data QN qN hpart hQ hQN hR hsolve (N - 1 - (n + 1))
-      (n + 1) (by omega)
-    have hps := hPSD (n + 1) hN
     have hch := (ric_chain N nx nu solveM solveV data QN qN n hN).1
-    obtain ⟨Pi, si, hPi, hsi, hrec⟩ : ∃ Pi si,
-        (ricStg N nx nu solveM solveV data QN qN (n + 1)).Pn = Pi ∧
-        (ricStg N nx nu solveM solveV data QN qN (n + 1)).sn = si ∧
-        ricStg N nx nu solveM solveV data QN qN (n + 1)
-          = ricRecord nx nu solveM solveV (data (n + 1)) Pi si :=
-      ⟨_, _, rfl, rfl, ric_records N nx nu solveM solveV data QN qN (n + 1) hN⟩
-    rw [hPi] at hs hsym hch ⊢
-    rw [hsi] at hs
-    rw [hrec] at hps hch
-    have key := stage_square_model nx nu solveM solveV (data (n + 1)) Pi si (hpart (n + 1) hN) hs
-      hsym (hR (n + 1) hN) ((DX) (n + 1)) (fun k => if h : k < nu then (DU) (n + 1) ⟨k, h⟩ else 0)
-      (by
-        intro k hk
-        have hlt := part_lt_K (hpart (n + 1) hN) k hk
-        simp only [hlt, dif_pos]
-        exact d2 (n + 1) hN ⟨k, hlt⟩ hk)
-    have hu : (fun k : Fin nu => if h : (k : Nat) < nu then (DU) (n + 1) ⟨k, h⟩ else 0)
-        = (DU) (n + 1) := by
-      ext k; simp [k.2]
-    rw [hu] at key
-    rw [Finset.sum_range_succ, d1 (n + 1) hN, add_assoc, key, ← hch]
-    have hw := hps ((fun b : Fin (data (n + 1)).J.length =>
-        (fun k => if h : k < nu then (DU) (n + 1) ⟨k, h⟩ else 0) (iget (data (n + 1)).J b))
-      - toM (data (n + 1)).J.length nx
-          (ricRecord nx nu solveM solveV (data (n + 1)) Pi si).gain *ᵥ (DX) (n + 1))
-    linarith
+    rw [Finset.sum_range_succ, Finset.sum_range_succ _ (n + 1), add_assoc, stage (n + 1) hN,
+      ← hch, ← hn]
+    ring
 
-include hpart hQ hQN hR hsolve hf hPSD in
-/-- **optimality**: no feasible point of the masked QP is cheaper than the Riccati step -/
-theorem ric_optimal :
-    qpCost N nx nu data QN qN (XS) (US) ≤ qpCost N nx nu data QN qN X' U' := by
+include hpart hQ hQN hR hsolve hf in
+/-- **the cost gap is a sum of squares**:
+    `cost(z') − cost(z_Riccati) = Σ_t ½ w_tᵀ R̄_t w_t` for every feasible `z'`. -/
+theorem ric_cost_gap :
+    qpCost N nx nu data QN qN X' U' - qpCost N nx nu data QN qN (XS) (US)
+      = ∑ t ∈ Finset.range N,
+          1 / 2 * bil (toM (data t).J.length (data t).J.length
+              (ricStg N nx nu solveM solveV data QN qN t).Rbar)
+            (ricW N nx nu solveM solveV data QN qN X' U' t)
+            (ricW N nx nu solveM solveV data QN qN X' U' t) := by
   obtain ⟨d0, _, _⟩ := dir_props N nx nu solveM solveV data QN qN hpart X' U' hf
   have hQs : ∀ t < N, (toM nx nx (data t).Q)ᵀ = toM nx nx (data t).Q := fun t ht => hQ t ht
   have hRs : ∀ t < N, (toM nu nu (data t).R)ᵀ = toM nu nu (data t).R := by
@@ -466,12 +470,10 @@ theorem ric_optimal :
       have e : (DX) N = (DX) 0 := by simp only [hN]
       rw [e]; exact d0
     have hr : Finset.range N = ∅ := by simp only [hN, Finset.range_zero]
-    have : qpCost N nx nu data QN qN X' U' - qpCost N nx nu data QN qN (XS) (US) = 0 := by
-      rw [hdiff, hr]
-      simp only [Finset.sum_empty, hDN, dotProduct_zero, bil, zero_dotProduct, mul_zero, add_zero]
-    linarith
+    rw [hdiff, hr]
+    simp only [Finset.sum_empty, hDN, dotProduct_zero, bil, zero_dotProduct, mul_zero, add_zero]
   · have hNpos : N > 0 := Nat.pos_of_ne_zero hN
-    have hq := quad_lower N nx nu solveM solveV data QN qN hpart hQ hQN hR hsolve X' U' hf hPSD
+    have hq := quad_exact N nx nu solveM solveV data QN qN hpart hQ hQN hR hsolve X' U' hf
       (N - 1) (by omega)
     rw [show N - 1 + 1 = N by omega] at hq
     have htop := (ric_top N nx nu solveM solveV data QN qN hNpos).1
@@ -487,8 +489,87 @@ theorem ric_optimal :
               ⬝ᵥ (DU) t)
         + (toM nx nx QN *ᵥ (XS) N + toV nx qN) ⬝ᵥ (DX) N = 0 := by
       rw [hlin, ← hterm]; ring
-    rw [hl, zero_add] at hdiff
+    rw [hdiff, hl, zero_add, hq]
+
+include hpart hQ hQN hR hsolve hf hPSD in
+/-- **optimality**: with positive-semidefinite reduced input Hessians no feasible point of the
+    masked QP is cheaper than the Riccati step -/
+theorem ric_optimal :
+    qpCost N nx nu data QN qN (XS) (US) ≤ qpCost N nx nu data QN qN X' U' := by
+  have hgap := ric_cost_gap N nx nu solveM solveV data QN qN hpart hQ hQN hR hsolve X' U' hf
+  have hnn : 0 ≤ ∑ t ∈ Finset.range N,
+      1 / 2 * bil (toM (data t).J.length (data t).J.length
+          (ricStg N nx nu solveM solveV data QN qN t).Rbar)
+        (ricW N nx nu solveM solveV data QN qN X' U' t)
+        (ricW N nx nu solveM solveV data QN qN X' U' t) := by
+    apply Finset.sum_nonneg
+    intro t ht
+    have := hPSD t (Finset.mem_range.mp ht) (ricW N nx nu solveM solveV data QN qN X' U' t)
     linarith
+  linarith
+
+include hpart hQ hQN hR hsolve hf in
+/-- **uniqueness**: with positive-definite reduced input Hessians a feasible point with the same
+    cost is the Riccati step itself -/
+theorem ric_unique
+    (hPD : ∀ t < N, ∀ w : Fin (data t).J.length → α, w ≠ 0 →
+      0 < bil (toM (data t).J.length (data t).J.length
+        (ricStg N nx nu solveM solveV data QN qN t).Rbar) w w)
+    (heq : qpCost N nx nu data QN qN X' U' = qpCost N nx nu data QN qN (XS) (US)) :
+    (∀ t ≤ N, X' t = (XS) t) ∧ (∀ t < N, U' t = (US) t) := by
+  obtain ⟨d0, d1, d2⟩ := dir_props N nx nu solveM solveV data QN qN hpart X' U' hf
+  have hgap := ric_cost_gap N nx nu solveM solveV data QN qN hpart hQ hQN hR hsolve X' U' hf
+  rw [heq, sub_self] at hgap
+  have hnn : ∀ t ∈ Finset.range N, 0 ≤ 1 / 2 * bil (toM (data t).J.length (data t).J.length
+        (ricStg N nx nu solveM solveV data QN qN t).Rbar)
+      (ricW N nx nu solveM solveV data QN qN X' U' t)
+      (ricW N nx nu solveM solveV data QN qN X' U' t) := by
+    intro t ht
+    by_cases hw : ricW N nx nu solveM solveV data QN qN X' U' t = 0
+    · rw [hw]; simp [bil]
+    · have := hPD t (Finset.mem_range.mp ht) _ hw
+      linarith
+  have hzero := (Finset.sum_eq_zero_iff_of_nonneg hnn).mp hgap.symm
+  have hw0 : ∀ t < N, ricW N nx nu solveM solveV data QN qN X' U' t = 0 := by
+    intro t ht
+    by_contra hw
+    have h1 := hPD t ht _ hw
+    have h2 := hzero t (Finset.mem_range.mpr ht)
+    linarith
+  have hind : ∀ t ≤ N, (DX) t = 0 ∧ ∀ s < t, (DU) s = 0 := by
+    intro t
+    induction t with
+    | zero => intro _; exact ⟨d0, fun s hs => absurd hs (Nat.not_lt_zero s)⟩
+    | succ t ih =>
+      intro ht
+      have htN : t < N := by omega
+      obtain ⟨hx, hu⟩ := ih (by omega)
+      have hwt := hw0 t htN
+      have hdu : (DU) t = 0 := by
+        ext k
+        have hk : (k : Nat) ∈ (data t).J ++ (data t).K :=
+          (hpart t htN).mem_iff.mpr (List.mem_range.mpr k.2)
+        rcases List.mem_append.mp hk with hJ | hK
+        · obtain ⟨b, hb, hbk⟩ := List.getElem_of_mem hJ
+          have hjb : iget (data t).J b = k := by
+            simp [iget, List.getD_eq_getElem?_getD, List.getElem?_eq_getElem hb, hbk]
+          have := congrFun hwt ⟨b, hb⟩
+          simp only [ricW, Pi.sub_apply, hx, mulVec_zero, Pi.zero_apply, sub_zero, hjb, k.2,
+            dif_pos] at this
+          exact this
+        · exact d2 t htN k hK
+      refine ⟨?_, ?_⟩
+      · rw [d1 t htN, hx, hdu, mulVec_zero, mulVec_zero, add_zero]
+      · intro s hs
+        by_cases hst : s < t
+        · exact hu s hst
+        · have : s = t := by omega
+          subst this; exact hdu
+  refine ⟨fun t ht => ?_, fun t ht => ?_⟩
+  · have := (hind t ht).1
+    exact sub_eq_zero.mp this
+  · have := (hind (t + 1) (by omega)).2 t (by omega)
+    exact sub_eq_zero.mp this
 
 end optimal
 
